@@ -104,7 +104,15 @@ def ob_call(report):
         i_max = upvar_index(ex, clo, r'^usize$')
         i_mode = upvar_index(ex, clo, r'WaitMode')
         i_req = upvar_index(ex, clo, r'Request<')
-        i_inner = upvar_index(ex, clo, r'^S$')
+        try:
+            i_inner = upvar_index(ex, clo, r'^S$')
+        except NotFound:
+            # the limiter future does not own the wrapped service: was it already called outside, i.e. before any permit is held?
+            futs = [t for t in ex.upvar_types(clo).values() if re.search(r'as (tower::)?Service<.*>>::Future$|::Future$', t)]
+            if futs:
+                return viol(ob, [ex], 'the wrapped service is called outside the limiter future (only its response future is awaited behind the semaphore): a service that starts '
+                            'work in `call` runs refused and waiting requests without a permit', 'call-before-permit', {'upvars': {str(k_): v_[:80] for k_, v_ in ex.upvar_types(clo).items()}}, 0)
+            raise
         p, args = coroutine_start(ex, clo)
         res = ex.run(clo, args, p)
         BLOCK, RETERR = ex.enums.index('WaitMode', 'Block'), ex.enums.index('WaitMode', 'ReturnError')
